@@ -123,10 +123,24 @@ type agxModel struct {
 	// documents this as a known limitation (db.go getOrCreate); violations that need this
 	// precondition get their own signature suffix.
 	gcRace map[string]bool
+	// dupRestart[s]: a restart replayed a WAL that held series records with two different refs
+	// for series s (the series had been collected and re-created before the restart).
+	dupRestart map[string]bool
+}
+
+// known returns the signature suffix naming the known-limitation precondition that holds for s.
+func (m *agxModel) known(s string) string {
+	switch {
+	case m.gcRace[s]:
+		return "/gc-while-pending"
+	case m.dupRestart[s]:
+		return "/duplicate-series-records-at-restart"
+	}
+	return ""
 }
 
 func newAgxModel(w int64) *agxModel {
-	return &agxModel{w: w, last: map[string]int64{}, lastRel: map[string]bool{}, attempts: map[string]int{}, gcRace: map[string]bool{}}
+	return &agxModel{w: w, last: map[string]int64{}, lastRel: map[string]bool{}, attempts: map[string]int{}, gcRace: map[string]bool{}, dupRestart: map[string]bool{}}
 }
 
 func (m *agxModel) frontier() int64 {
@@ -213,7 +227,7 @@ func (m *agxModel) key() string {
 	fmt.Fprintf(&sb, "|open=%v|tr=%v", m.open, m.truncs > 0)
 	for _, s := range []string{"s1", "s2"} {
 		l, ok := m.last[s]
-		fmt.Fprintf(&sb, "|%s:%v/%d/%v/%v", s, ok, l, m.lastRel[s], m.gcRace[s])
+		fmt.Fprintf(&sb, "|%s:%v/%d/%v/%v/%v", s, ok, l, m.lastRel[s], m.gcRace[s], m.dupRestart[s])
 	}
 	at := make([]string, 0, len(m.attempts))
 	for k, v := range m.attempts {
@@ -446,10 +460,7 @@ func (x *agx) appendOne(s, tspec, kind string, withEx bool) *vx.Fail {
 	if exErr != nil {
 		return vx.Failf("exemplar-unexpected-error", "exemplar for %s t=%d: %v", s, t, exErr)
 	}
-	race := ""
-	if x.m.gcRace[s] {
-		race = "/gc-while-pending"
-	}
+	race := x.m.known(s)
 	if accepted && x.m.mustReject(s, t) {
 		msg := fmt.Sprintf("append %s t=%d (%s) was ACCEPTED although the series' last written sample is at %d and the out-of-order window is %d (history %v)", s, t, kind, x.m.last[s], x.cfg.W, x.hist)
 		if race != "" && x.soft != nil {
@@ -590,6 +601,17 @@ func (x *agx) Apply(op string, check bool) (fail *vx.Fail) {
 			return vx.Failf("op-error/open", "Open: %v", err)
 		}
 		x.refs = map[string]storage.SeriesRef{} // series refs do not survive a restart
+		if w, f := agxDecode(x.walDir(), x.cfg.ST, true); f == nil {
+			seen := map[string]string{}
+			for _, sr := range w.SeriesRecs { // "seg:ref=series"
+				_, rs, _ := strings.Cut(sr, ":")
+				ref, sk, _ := strings.Cut(rs, "=")
+				if prev, ok := seen[sk]; ok && prev != ref {
+					x.m.dupRestart[sk] = true
+				}
+				seen[sk] = ref
+			}
+		}
 		x.outcome = "restart/" + fmt.Sprint(len(x.db.deleted) > 0)
 	default:
 		panic("agx: unknown op " + op)
@@ -838,10 +860,7 @@ func (x *agx) checkC48(w *agxWal) *vx.Fail {
 		if resolved[id] >= owed[id] {
 			continue
 		}
-		race := ""
-		if x.m.gcRace[it.S] {
-			race = "/gc-while-pending"
-		}
+		race := x.m.known(it.S)
 		k := fmt.Sprintf("%s@%d=%s", it.Kind, it.T, it.Val)
 		sig := "accepted-sample-missing-from-wal/" + op
 		msg := fmt.Sprintf("after %s: committed %s (at or after every truncation time since its commit) is not in the WAL. history %v; wal: %s", x.lastOp, id, x.hist, w.Digest)
@@ -866,9 +885,9 @@ func (x *agx) checkC48(w *agxWal) *vx.Fail {
 func (x *agx) checkC15(w *agxWal) *vx.Fail {
 	x.syncShadow()
 	op := strings.SplitN(x.lastOp, "/", 2)[0]
-	race := ""
-	if x.m.gcRace["s1"] || x.m.gcRace["s2"] {
-		race = "/gc-while-pending"
+	race := x.m.known("s1")
+	if race == "" {
+		race = x.m.known("s2")
 	}
 	// (2) every non-series record refers to a series whose record precedes it
 	for _, it := range w.Items {
